@@ -31,6 +31,10 @@ def rules(ctx):
     C11.c111(ctx)
     C11.c115(ctx)   # bounded scans: the bounds cursor honours both bounds in both directions
     C11.c116(ctx)   # per-level concatenation: seek/next/prev move on from an exhausted file
+    C11.c114(ctx)   # the pruning stage: timestamp filter, tombstones, skip_key screen and reset
+    C06.c065(ctx)   # the timestamp a scan captures covers exactly the completely inserted batches
+    from . import C05
+    C05.c055(ctx)   # a GC that drops a live value makes the scan miss it
 
 
 def stage_calls(f, pat):
